@@ -1378,7 +1378,14 @@ class InstrumentationTransformer:
                 if (
                     (last_instr := node.try_get_instruction(-1)) is None
                     or not isinstance(last_instr.lineno, int)
-                    or ast_info.should_cover_conditional_statement(last_instr.lineno)
+                    or (
+                        ast_info.should_cover_conditional_statement(last_instr.lineno)
+                        # A conditional jump on an excluded line is no predicate
+                        and (
+                            not version.is_conditional_jump(last_instr)
+                            or ast_info.should_cover_line(last_instr.lineno)
+                        )
+                    )
                 ) and (
                     any(
                         not isinstance(instr.lineno, int)
